@@ -220,7 +220,7 @@ var routes = ev.Register(&ev.P[momentCase]{
 		return nil
 	},
 	Class: func(c momentCase) ([]string, bool) { return classMoment(c.T) },
-	Require: []string{"hour23", "afterDecemberSolstice", "solsticeDay", "leapMonth"},
+	Require: []string{"hour23", "afterDecemberSolstice", "solsticeDay", "leapMonth", "jieDayBeforeInstant"},
 })
 
 func classMoment(t ref.DT) ([]string, bool) {
@@ -242,6 +242,12 @@ func classMoment(t ref.DT) ([]string, bool) {
 	}
 	if l.GetMonth() < 0 {
 		ls, nt = append(ls, "leapMonth"), true
+	}
+	if l.GetMonthInGanZhi() != l.GetMonthInGanZhiExact() {
+		ls, nt = append(ls, "jieDayBeforeInstant"), true
+		if l.GetYearInGanZhiByLiChun() != l.GetYearInGanZhiExact() {
+			ls = append(ls, "lichunDayBeforeInstant")
+		}
 	}
 	return ls, nt
 }
@@ -398,11 +404,27 @@ var eightChar = ev.Register(&ev.P[momentCase]{
 		ls = append(ls, fmt.Sprintf("sect:%d", c.Sect))
 		return ls, c.T.H == 23
 	},
-	Require: []string{"hour23", "sect:1", "sect:2"},
+	Require: []string{"hour23", "sect:1", "sect:2", "lichunDayBeforeInstant"},
 })
 
 func genMoment(t *rapid.T) ref.DT {
-	switch rapid.IntRange(0, 5).Draw(t, "kind") {
+	switch rapid.IntRange(0, 6).Draw(t, "kind") {
+	case 6: // a Jie day (Lichun every third time) before or after the instant: the day-level and instant-level pillars differ
+		y := gen.Year(t, 1, 9998)
+		ts := gen.Terms(y)
+		i := 2 * rapid.IntRange(1, 12).Draw(t, "jie")
+		if rapid.IntRange(0, 2).Draw(t, "lichun") == 0 {
+			i = 4
+		}
+		x := ts[i]
+		h, mi, s := gen.Time(t)
+		if rapid.Bool().Draw(t, "justBefore") {
+			b := ref.FromSec(x.Sec() - int64(rapid.IntRange(1, 7200).Draw(t, "secBefore")))
+			if b.D == x.D {
+				return b
+			}
+		}
+		return ref.DT{Y: x.Y, M: x.M, D: x.D, H: h, Mi: mi, S: s}
 	case 0: // between the December solstice and the year end
 		y := gen.Year(t, 1, 9998)
 		dz := gen.Terms(y)[25]
@@ -462,6 +484,16 @@ func TestC11(t *testing.T) {
 				m := ref.DT{Y: d.Y, M: d.M, D: d.D, H: h, Mi: 30}
 				routes.Eval(momentCase{m, 2})
 				eightChar.Eval(momentCase{m, 1 + h%2})
+			}
+		}
+	}
+	// Lichun day, one hour before the instant, of every hot year (the year pillar changes xun in 甲 years)
+	for _, y := range gen.HotYears() {
+		if ev.Mine(y) {
+			x := gen.Terms(y)[4]
+			if b := ref.FromSec(x.Sec() - 3600); b.D == x.D {
+				routes.Eval(momentCase{b, 2})
+				eightChar.Eval(momentCase{b, 1 + y%2})
 			}
 		}
 	}
